@@ -247,9 +247,13 @@ class Check:
                 self.parts['asan'] = [part]
             return
         # the sanitizer killed the process: turn that into a replayable violation
-        if 'AddressSanitizer' not in p.stderr or not os.path.exists(note):
+        if 'AddressSanitizer' not in p.stderr:
+            # killed by something else (std's unsafe-precondition check): same handling as on the plain substrates
+            self.died('asan', binary, p.returncode, p.stderr, note, ['--exact-end'])
+            return
+        if not os.path.exists(note):
             sys.stderr.write(p.stderr[-4000:])
-            say('HARNESS ERROR: asan substrate died without a sanitizer report (status %d)' % p.returncode)
+            say('HARNESS ERROR: asan substrate died and left no note of the run it was executing (status %d)' % p.returncode)
             self.note(2)
             return
         prop, seed, index = open(note).read().split()
